@@ -32,6 +32,17 @@ Guards:
   is counted, never judged (the property speaks about the result of compiling a pickled
   copy, not about picklability).
 * anonymous names are compared as rendered (deterministic per compilation).
+
+Candidate genuine defects this check reports on the unchanged tree (one mechanism each,
+details + proposed patches in selftest/C03/proposed_fixes_gb.patch.txt):
+  earlier-statement-sql-changed:shared-dialect_options-mutated-by-generative-call
+  compile-modifies-statement:dialect_options      (oracle LIMIT/FETCH, mysql UPDATE/DELETE compile)
+  compile-modifies-statement:_compile_options     (ORM compile writes on the caller's statement)
+  copy-compile-raises-internal-error:AttributeError@_adapt_expression   (pickled memoized comparator)
+  copy-raises-internal-error:AttributeError@_clone:LoaderCriteriaOption (slots class cannot be cloned)
+  copy-compile-raises-internal-error:AssertionError@_generate_columns_plus_names (>=3 repeated columns via subquery)
+  copy-compiles-differently:traversal-clone:sql   (aliased-entity join + maintain_column_froms: FROM duplicated)
+  copy-compiles-differently:pickle:sql            (anonymous label of a scalar subquery exported by a CTE)
 """
 from __future__ import annotations
 
